@@ -11,7 +11,7 @@
 From Coq Require Import List NArith Bool.
 From V.gen Require Consts.
 From V.C03 Require Import Model Msg Proofs UviProofs LsProofs WebRtc WebRtcProofs Fallback.
-From V.C03 Require Import MsgRef MsgProofs MsgInv Chan Dir SimD SimL SimSys BytesThm.
+From V.C03 Require Import MsgRef MsgProofs MsgInv Chan Dir SimD SimL SimSys BytesThm LazyThm.
 Import ListNotations.
 Open Scope N_scope.
 
@@ -197,6 +197,37 @@ Theorem C03_bytes_run_correct :
 Proof. exact run_sys_correct. Qed.
 Print Assumptions C03_bytes_run_correct.
 
+(* ---- the optimistic variant (V1Lazy), dialer side *)
+(* byte level: with a single name the future settles on its first poll, header and proposal
+   buffered, no carrier operation *)
+Theorem C03_lazy_immediate :
+  forall d pin pout fuel, wfn d ->
+  d_poll (S (S fuel)) (d_init [d] true) pin pout =
+  (mkDialer (DSendProto 0 d false) [] true rd_init (fr MHeader), pin, pout,
+   NLazy 0 d rd_init (fr MHeader ++ fr (MProto d))).
+Proof. exact lazy_immediate. Qed.
+Print Assumptions C03_lazy_immediate.
+
+(* message level: header, proposal and then application data (for the listener's frame parser
+   an arbitrary sequence `junk` of further frames) are written, then the dialer reads; for
+   every junk, listener set and schedule its verdict is "confirmed" iff the listener supports
+   the name *)
+Theorem C03_lazy_dialer_verdict :
+  forall d ls, starts_slash d = true -> forall junk sched,
+  let m := mrun ls sched (lazy_init d junk) in
+  (forall q, md_ph (sd m) = MDDone (Some q) -> q = d /\ supported ls d = true) /\
+  (md_ph (sd m) = MDDone None -> supported ls d = false).
+Proof. exact lazy_dialer_verdict. Qed.
+Print Assumptions C03_lazy_dialer_verdict.
+
+(* the listener half of agreement does NOT hold for V1Lazy (upstream-documented pitfall) *)
+Theorem C03_lazy_listener_agreement_refuted :
+  exists d ls junk sched,
+    let m := mrun ls sched (lazy_init d junk) in
+    md_ph (sd m) = MDDone None /\ ml_ph (sl m) = MLDone (Some [47; 98]) /\ d <> [47; 98].
+Proof. exact lazy_listener_agreement_refuted. Qed.
+Print Assumptions C03_lazy_listener_agreement_refuted.
+
 (* ---- layer 5: the message-based variant (webrtc_listener_negotiate / WebRtcDialerState) *)
 (* header + proposal in one payload *)
 Theorem C03_webrtc_listener_header_proposal :
@@ -302,8 +333,7 @@ Example C03_bytelevel_example :
   p_buf (s_dl s) = [] /\ p_buf (s_ld s) = [].
 Proof. vm_compute. repeat split; reflexivity. Qed.
 
-(* ---- the optimistic variant (V1Lazy; not used by litep2p's transports): the documented
-   pitfall, kept explicit. The dialer settles on "/a" which the listener does not support; its
+(* ---- the same pitfall on the byte-level model (V1Lazy is not used by litep2p's transports). The dialer settles on "/a" which the listener does not support; its
    first application bytes look like a proposal of "/b": the listener accepts "/b", the dialer
    learns of the failure (error 1 = Failed) on its first read. So for V1Lazy only the dialer
    half of agreement is claimed (see prop_ok in Glue.v). *)
